@@ -71,7 +71,7 @@ type World struct {
 	Panic      string
 	Timeout    time.Duration
 	IO         IOState
-	ChunkMem bool // values are held in memory as chunks (neutral callback configuration of C17)
+	ChunkMem   bool            // values are held in memory as chunks (neutral callback configuration of C17)
 	Roots      [][]byte        // root records written by the successful flushes so far
 	PreImage   []byte          // file image before the Flush in progress
 	LastEvents []IOEvent       // file calls of the last API call
